@@ -3075,3 +3075,77 @@ Proof.
   pose proof (wrun_AppOK true _ _ R A A0) as HA. unfold NAppOK, AppOK in HA.
   rewrite Forall_forall in HA. exact (HA m Hin Ht).
 Qed.
+
+(* ---- the messages actually handed to the application ---- *)
+Theorem ready_msgs_ok n n1 rd :
+  rn_ready n = Ok (n1, rd) -> NAppOK n -> Forall app_ok (lr_messages (rd_light rd)).
+Proof.
+  intros H HA. destruct (rn_ready_light _ _ _ H) as (oe & k & _ & _ & E & _). rewrite E. exact HA.
+Qed.
+
+Lemma commit_ready_msgs n rd n' : commit_ready n rd = Ok n' -> r_msgs (rn_raft n') = r_msgs (rn_raft n).
+Proof.
+  intros H. destruct (commit_ready_stabilises _ _ _ H) as (_ & _ & _ & ->). reflexivity.
+Qed.
+
+Lemma rn_on_persist_ready_AppOK rw n number n' :
+  rn_on_persist_ready n number = Ok n' -> persist_pre n number -> NLI rw n -> NAppOK n -> NAppOK n'.
+Proof.
+  intros H W HI HA.
+  assert (E : exec n (OOnPersistReady number) = Ok (n', no_out)) by (cbn; rewrite H; reflexivity).
+  exact (exec_AppOK rw _ _ _ _ E W HI HA).
+Qed.
+
+Theorem advance_append_msgs_ok rw n rd n' lr :
+  rn_advance_append n rd = Ok (n', lr) -> advance_pre n -> NLI rw n -> NAppOK n ->
+  Forall app_ok (lr_messages lr).
+Proof.
+  intros H [P1 P2] HI HA.
+  destruct (rn_advance_append_inv _ _ _ _ H) as (n1 & n2 & n3 & lr3 & H1 & H2 & H3 & _ & _ & _ & _ & _ & Hl).
+  destruct (commit_ready_pres rw _ _ _ H1 P1 HI) as (A1 & _ & C1 & (_ & D2 & _) & E1 & F1).
+  assert (P2' : persist_pre n1 (rn_max_number n1)).
+  { unfold persist_pre in *. rewrite E1, F1, D2, C1. exact P2. }
+  assert (HA1 : NAppOK n1) by (unfold NAppOK; eapply AppOK_same; [eapply commit_ready_msgs; exact H1|exact HA]).
+  pose proof (rn_on_persist_ready_AppOK rw _ _ _ H2 P2' A1 HA1) as HA2.
+  destruct (gen_light_ready_spec _ _ _ H3) as (oe & k & _ & E3 & _).
+  subst lr. cbn [lr_messages]. rewrite E3. cbn [lr_messages]. exact HA2.
+Qed.
+
+Theorem advance_msgs_ok rw n rd n' lr :
+  rn_advance n rd = Ok (n', lr) -> advance_pre n -> NLI rw n -> NAppOK n ->
+  Forall app_ok (lr_messages lr).
+Proof.
+  unfold rn_advance. intros H P HI HA. inv_bind H. destruct x as [n1 lr1]. cbn [fst snd] in H.
+  inv_bind H. inversion H; subst. eapply advance_append_msgs_ok; eassumption.
+Qed.
+
+(* from RawNode::new: every MsgAppend in the messages of any Ready or LightReady is a
+   contiguous batch *)
+Theorem handed_append_msgs_contiguous_from_new c st sa dr n0 n :
+  rn_new c st sa dr = Ok (inr n0) -> SInv st -> trig_log st = false -> wrun n0 n ->
+  (forall n1 rd, rn_ready n = Ok (n1, rd) -> Forall app_ok (lr_messages (rd_light rd)))
+  /\ (forall rd n1 lr, advance_pre n -> rn_advance_append n rd = Ok (n1, lr) -> Forall app_ok (lr_messages lr))
+  /\ (forall rd n1 lr, advance_pre n -> rn_advance n rd = Ok (n1, lr) -> Forall app_ok (lr_messages lr)).
+Proof.
+  intros H Hs Hq R.
+  destruct (rn_new_pres _ _ _ _ _ H Hs Hq) as (A & _).
+  assert (A0 : NAppOK n0).
+  { unfold NAppOK, AppOK. unfold rn_new in H. destruct (c_id c =? 0); [discriminate|].
+    inv_bind H. destruct x as [e|r]; inversion H; subst. cbn.
+    rewrite (raft_new_msgs _ _ _ _ _ Hx). constructor. }
+  pose proof (wrun_AppOK true _ _ R A A0) as HA. pose proof (wrun_pres true _ _ R A) as HI.
+  splits.
+  - intros n1 rd Hr. eapply ready_msgs_ok; eassumption.
+  - intros rd n1 lr P Ha. eapply advance_append_msgs_ok; eassumption.
+  - intros rd n1 lr P Ha. eapply advance_msgs_ok; eassumption.
+Qed.
+
+Lemma app_ok_def m :
+  app_ok m <-> (m_type m = MsgAppend -> contiguous_from (m_index m + 1) (m_entries m)).
+Proof. reflexivity. Qed.
+
+Lemma AppOK_def r : AppOK r <-> Forall app_ok (r_msgs r).
+Proof. reflexivity. Qed.
+
+Lemma NAppOK_def n : NAppOK n <-> Forall app_ok (r_msgs (rn_raft n)).
+Proof. reflexivity. Qed.
